@@ -39,7 +39,8 @@ def fresh(rng, n=None, stamped=True, mode=None, materialise=None):
         if arr["t"][k] <= arr["t"][k - 1]:
             arr["t"][k] = arr["t"][k - 1] + 1e-3
     mode = mode or ("se3" if rng.random() < .5 else "xyzq")
-    tr = gen.make_evo(arr, mode, stamped, flavour=gen.rand_flavour(rng))
+    arr["flavour"] = gen.rand_flavour(rng)
+    tr = gen.make_evo(arr, mode, stamped, flavour=arr["flavour"])
     if materialise if materialise is not None else (rng.random() < .5):
         tr.poses_se3, tr.positions_xyz, tr.orientations_quat_wxyz
     elif materialise is None:
@@ -457,7 +458,7 @@ def k_indep(run, case):
         # expected content of the derived objects: the same derivation replayed on a twin
         rng2 = np.random.default_rng(0)
         rng2.bit_generator.state = rng_state
-        A2 = gen.make_evo(arrA, mode)
+        A2 = gen.make_evo(arrA, mode, flavour=arrA["flavour"])  # (same containers and memory layout as the source)
         if case["materialise"]:
             A2.poses_se3, A2.positions_xyz, A2.orientations_quat_wxyz
         with core.quiet():
